@@ -127,8 +127,13 @@ def build_plan(rows, tier):
                     # "p": both flags are SET by an earlier overflow insn (MIN+MIN), "q": both CLEAR (0+0), so that a
                     # transformation that drops or reorders the flag producer is visible whatever the flags held before
                     for pre, pretext in (("", ""), ("p", " mov one, -9223372036854775808\n addo two, one, one\n"), ("q", " mov one, 0\n addo two, one, one\n")):
-                        for shape, opnds in (("rr", "a, b"), ("ri", "a, %s" % imm(b)), ("rm", "a, i64:8(buf)")):
+                        for shape, opnds in (("rr", "a, b"), ("ri", "a, %s" % imm(b)), ("rm", "a, i64:8(buf)"), ("md", "a, b")):
                             key = (op, br, pre + shape) + ((b,) if shape == "ri" else ())
+                            if shape == "md":     # memory destination with displacement: the flag must survive the store
+                                body = LOADAB + pretext + " %s i64:16(buf), a, b\n %s L1\n mov fl, 0\n jmp L2\nL1:\n mov fl, 1\nL2:\n mov i64:24(buf), fl\n" % (op, br)
+                                fn = P.func(key, body)
+                                P.call(fn, mkbuf(a, b), {"r": v, "mask": mask, "fl": int(taken)}, row, br + ":" + pre + shape)
+                                continue
                             body = LOADAB + pretext + " %s r, %s\n %s L1\n mov fl, 0\n jmp L2\nL1:\n mov fl, 1\nL2:\n" % (op, opnds, br) + STORER + " mov i64:24(buf), fl\n"
                             fn = P.func(key, body)
                             P.call(fn, mkbuf(a, b), {"r": v, "mask": mask, "fl": int(taken)}, row, br + ":" + pre + shape)
